@@ -53,7 +53,7 @@ def plan(tier, prop):
                             "fatal_error", "dup_reply_ignored",
                             "late_reply_in_later_burst",
                             "retryable_discarded", "window_full",
-                            "seq_wrap"] + ([] if quick else
+                            "seq_wrap", "falsy_callable_callback"] + ([] if quick else
                                            ["seq_skip_outstanding"]),
         "knob_ranges": {"n_tries": "1-5", "timeout": TIMEOUTS,
                         "window": "1-16", "buffer_size": BUFFERS,
@@ -286,6 +286,17 @@ class Engine(object):
                 w.violate("X1", "callback of command %d invoked with a "
                           "datagram the peer never generated for it" % c.id,
                           kind="forged-reply")
+        kind = self.tape.weighted([8, 1, 1])
+        if kind == 1:
+            # a callable object that is an (empty) collection: falsy
+            class Collector(list):
+                def __call__(self, packet):
+                    return cb(packet)
+            w.probe("falsy_callable_callback")
+            return Collector()
+        if kind == 2:
+            import functools
+            return functools.partial(cb)
         return cb
 
     # -- workload ----------------------------------------------------------
